@@ -29,6 +29,7 @@ def run(ctx):
     prog = ctx.prog
     ctx.rule('R05.1', 'kinematic_singularity: Some(A) for every J5 whose corrected angle is inside the 0.01 deg band of k*pi (both sides), None outside (abstract interpretation over cells)')
     ctx.rule('R05.2', 'the J5~0 discriminator of the singular recovery tests the corrected angle j5*s5 - o5')
+    ctx.rule('R05.5', 'the halved sum difference is confined to [-pi, pi] for any winding of the wrist (control-flow bound, or helper interpreted over +-16*pi)')
     ctx.rule('R05.4', 'recovery: new4 - prev4 == new6 - prev6 == half of the reduced sum difference; candidate gated by FK check on the unshifted pose and by the limits')
     ks = prog.trait_impl_method(opw.OPW, 'Kinematics', 'kinematic_singularity')
     ctx.require(ks is not None, 'OPWKinematics::kinematic_singularity')
@@ -140,9 +141,13 @@ def run(ctx):
             found = 'new4 - prev4 = %s ; new6 - prev6 = %s' % (d4.show(lambda a: show(a, maxdepth=3)), d6.show(lambda a: show(a, maxdepth=3)))
             # the increment is angle / 2
             incs = mir.subterms(v4, lambda x: x[0] == 'bin' and x[1] == 'Div' and util.const_val(x[3]) == 2.0)
-            ok = ok and len(incs) >= 1
+            from fractions import Fraction
+            half = len(d4.m) == 1 and list(d4.m.values())[0] == Fraction(1, 2) and sum(e for a, e in list(d4.m.keys())[0]) == 1
+            ok = ok and (len(incs) >= 1 or half)
     ctx.check(ok, 'R05.4', 'equal-redistribution', ic.where(ws[0][0], ws[0][1]) if ws else ic.where(0), ic.path,
               'J4 and J6 of the recovered answer must move by the same amount (half the reduced sum difference) from their previous values', found=found, detail=found or '')
+    if ws and 3 in by_idx and len(by_idx[3]) == 1:
+        _total_reduction(ctx, prog, ic, by_idx[3][0])
     # sums: J5=0 arm uses prev4+prev6 / now4+now6, other arm prev4-prev6 / now4-now6
     sums = {}
     for i, j, st in ic.stmts():
@@ -167,6 +172,129 @@ def run(ctx):
                 if util.is_param(a, 2) and isinstance(b, tuple) and b[0] == 'call' and cname(b[1]) == 'Kinematics::forward':
                     fk = True
         ctx.check(fk, 'R05.4', 'gate-unshifted', ic.where(bi), ic.path, 'the recovered candidate must be verified by forward kinematics against the requested (unshifted) pose')
+
+
+def _total_reduction(ctx, prog, ic, w4):
+    """R05.5: the sum difference that is halved lies in [-pi, pi] however far the wrist is wound up (previous J4/J6 are
+    unbounded: multi-turn wrists).  Decided (a) from control flow: the halving site is dominated by the exits
+    `angle > PI == false` and `angle < -PI == false` of loops on that same variable; or (b) for a reduction delegated to a
+    helper fn(&mut f64, const): by abstract interpretation of the helper over cells covering +-16*pi."""
+    import math
+    from .. import absint
+    from ..absint import Iv, Interp
+    from ..facts import MachineryError
+    i4, j4, v4 = w4
+    halves = mir.subterms(v4, lambda x: x[0] == 'bin' and ((x[1] == 'Div' and util.const_val(x[3]) == 2.0) or
+                                                        (x[1] == 'Mul' and 0.5 in (util.const_val(x[2]), util.const_val(x[3])))))
+    if not halves:
+        return           # reported by equal-redistribution
+    h = halves[0]
+    A = h[3] if (h[1] == 'Mul' and util.const_val(h[2]) == 0.5) else h[2]
+    while isinstance(A, tuple) and A[0] in ('ref', 'deref'):
+        A = A[1]
+    if not (isinstance(A, tuple) and A[0] == 'mutb'):
+        A = strip(A)
+    where = ic.where(i4, j4)
+    if isinstance(A, tuple) and A[0] == 'var':
+        lo_ok = hi_ok = False
+        for g, k, sw in ic.guard_terms(i4):
+            bd = util.as_bound(g, opw.truth(k))
+            if bd is None:
+                continue
+            op, a, b = bd[0], strip(bd[1]), strip(bd[2])
+            if a == A and _num(b) is not None and _num(b) <= math.pi + 1e-9:
+                hi_ok = True
+            if b == A and _num(a) is not None and _num(a) >= -math.pi - 1e-9:
+                lo_ok = True
+        ctx.check(lo_ok and hi_ok, 'R05.5', 'reduction/control-flow', where, ic.path,
+                  'the halved sum difference is not confined to [-pi, pi] on every path to the halving site (a residual turn moves J4 and J6 by pi each)',
+                  found='upper bound %s, lower bound %s' % (hi_ok, lo_ok), detail='dominated by the exits angle <= PI and angle >= -PI')
+        return
+    if isinstance(A, tuple) and A[0] == 'mutb':
+        loc = A[1]
+        sites = []
+        for bi, t in ic.calls():
+            c = t['callee']
+            if not (c.get('local') and c.get('resolved') in prog.bodies):
+                continue
+            args = [ic.op_term(a, (bi, None)) for a in t['args']]
+            pos = [n for n, a in enumerate(args) if mir.contains(a, lambda x: x[0] == 'mutb' and x[1] == loc)]
+            if pos:
+                sites.append((bi, t, args, pos))
+        ctx.require(len(sites) == 1 and len(sites[0][3]) == 1, 'the one helper call that reduces the sum difference in place')
+        bi, t, args, pos = sites[0]
+        hb = prog.bodies[t['callee']['resolved']]
+        ctx.fn(hb)
+        consts = [util.const_val(a) if n != pos[0] else None for n, a in enumerate(args)]
+        ctx.require(all(c is not None for n, c in enumerate(consts) if n != pos[0]), 'constant remaining arguments of the reduction helper')
+        w = 0.25
+        bad = holds = und = 0
+        x = -16 * math.pi
+        while x < 16 * math.pi:
+            cell = (x, x + w)
+            x += w
+            I = Interp(prog, {}, fuel=50000)
+            argv = [('refval', Iv(*cell), ()) if n == pos[0] else Iv(float(consts[n])) for n in range(len(args))]
+            try:
+                outs = I.run_with_cells(hb.path, argv, [pos[0]])
+            except absint.Undecided:
+                und += 1
+                continue
+            except absint.Unsupported as e:
+                raise MachineryError('reduction helper could not be interpreted: %s' % e)
+            worst = None
+            good = True
+            for o, back in outs:
+                r = back[0]
+                if not isinstance(r, Iv):
+                    good = False
+                    continue
+                if r.lo > math.pi + 1e-9 or r.hi < -math.pi - 1e-9:
+                    if not o.cmp_forked:
+                        worst = r
+                    good = False
+                elif r.hi > math.pi + w or r.lo < -math.pi - w:
+                    good = False
+            if worst is not None:
+                bad += 1
+                if bad <= 6:
+                    ctx.violation('R05.5', 'reduction/helper/x[%.3f,%.3f]' % cell, hb.where(0), hb.path,
+                                  'for every sum difference in the cell the helper leaves %r, outside [-pi, pi]: a wound-up wrist makes J4 and J6 jump by pi' % (worst,),
+                                  found=repr(worst), expected='[-pi, pi]')
+            elif good:
+                holds += 1
+            else:
+                und += 1
+        ctx.evaluations += holds + bad + und
+        ctx.extra['reduction_helper_cells'] = {'holds': holds, 'definite_failures': bad, 'undecided': und}
+        if bad == 0:
+            ctx.require(holds >= 0.8 * (holds + und), 'precision of the reduction-helper analysis: %d of %d cells decided' % (holds, holds + und))
+            ctx.ok('R05.5', 'reduction/helper', hb.where(0), '%d cells over +-16*pi stay within [-pi, pi]' % holds)
+        return
+    # closed form: (d + PI).rem_euclid(2 PI) - PI
+    okf = False
+    if isinstance(A, tuple) and A[0] == 'bin' and A[1] == 'Sub' and _num(A[3]) is not None and abs(_num(A[3]) - math.pi) < 1e-9:
+        r = strip(A[2])
+        if isinstance(r, tuple) and r[0] == 'call' and cname(r[1]) == 'f64::rem_euclid' and _num(r[3]) is not None and abs(_num(r[3]) - 2 * math.pi) < 1e-9:
+            inner = strip(r[2])
+            okf = isinstance(inner, tuple) and inner[0] == 'bin' and inner[1] == 'Add' and any(_num(x) is not None and abs(_num(x) - math.pi) < 1e-9 for x in inner[2:4])
+    ctx.require(okf, 'reduction of the sum difference to [-pi, pi] (loops on the halved variable, an in-place helper, or (d + PI).rem_euclid(2 PI) - PI)')
+    ctx.ok('R05.5', 'reduction/closed-form', where, '(d + PI).rem_euclid(2 PI) - PI')
+
+
+def _num(t):
+    """numeric value of a constant term, looking through negation and products of constants (2.0 * PI)"""
+    t = strip(t)
+    v = util.const_val(t)
+    if isinstance(v, (int, float)) and not isinstance(v, bool):
+        return float(v)
+    if isinstance(t, tuple) and t[0] == 'un' and t[1] == 'Neg':
+        x = _num(t[2])
+        return -x if x is not None else None
+    if isinstance(t, tuple) and t[0] == 'bin' and t[1] == 'Mul':
+        a, b = _num(t[2]), _num(t[3])
+        return a * b if a is not None and b is not None else None
+    return None
 
 
 def _prev_idx(b, v, idx):
